@@ -1,8 +1,9 @@
 ---------------------------- MODULE KeepAliveMC ----------------------------
 (* Bounded configurations of KeepAlive (property C13).                       *)
 (*  KeepAlive_mc_*.cfg   exhaustive check of the design: every outcome script *)
-(*                       up to MaxLen x every threshold x both closing modes  *)
-(*                       x every answer delay.                                *)
+(*                       up to MaxLen x every threshold x the closing modes   *)
+(*                       x every answer delay x (scripts up to EnvMaxLen) the *)
+(*                       handshake slots and the Connect-context slots.       *)
 (*  KeepAlive_gen.cfg    same check with a single answer delay (one behaviour *)
 (*                       per case); every terminal state is exported as the   *)
 (*                       case the Go harness runs, with the code-shaped       *)
@@ -11,6 +12,7 @@ EXTENDS KeepAlive, Json
 
 CaseJson == [pattern |-> script, T |-> thr0, end |-> endMode,
              drain |-> drain, drainAt |-> drainedAt,
+             hs |-> hs, cc |-> cc, hsAt |-> HsTime, ccAt |-> CcTime,
              nping |-> k, closeAt |-> closedAt, userAt |-> userAt, unit |-> Interval,
              final |-> pc, ticks |-> [i \in 1..Len(hist) |-> hist[i].at]]
 \* used as an invariant: evaluated once per distinct state, TRUE always
@@ -18,6 +20,13 @@ Export == IF Terminal THEN PrintT(ToJson(CaseJson)) ELSE TRUE
 
 \* thresholds of the thorough configuration (the cfg syntax has no negative literals)
 ThoroughThresholds == {-1, 0, 1, 2, 3, 4}
+\* handshake and Connect-context slots
+NoHs == {0}
+NoCtx == {-1}
+GenHsSlots == {-1, 0, 1, 2, 3, 4}
+GenCtxSlots == {-1, 0, 1, 2, 3, 4}
+WitHsSlots == {-1, 0, 1, 2}
+WitCtxSlots == {-1, 0, 1}
 
 \* reachability witnesses (each must be VIOLATED, otherwise the model is vacuous)
 NeverClosed == closedAt < 0
@@ -26,4 +35,11 @@ NeverTolerated == ~(pc = "select" /\ cf > 0)
 NeverReset == ~(pc = "select" /\ cf = 0 /\ \E i \in 1..Len(hist) : hist[i].o \in Failures)
 NeverDrained == drainedAt < 0
 NeverLateClose == ~(pc = "closed" /\ userAt >= 0)
+\* the loop pings a peer that has not (yet) completed the handshake, and closes it when it fails those pings
+NeverPingBeforeHandshake == ~(\E i \in 1..Len(hist) : hs < 0 \/ hist[i].at < HsTime)
+NeverClosedBeforeHandshake == ~(closedAt >= 0 /\ (hs < 0 \/ closedAt < HsTime))
+NeverAnsweredBeforeHandshake == ~(\E i \in 1..Len(hist) : hist[i].o = "a" /\ hs > 0 /\ hist[i].at < HsTime /\ Inited)
+\* the loop keeps pinging, and closes a silent peer, after the Connect context has ended
+NeverPingAfterCtxCancel == ~(\E i \in 1..Len(hist) : cc >= 0 /\ hist[i].at > CcTime)
+NeverClosedAfterCtxCancel == ~(cc >= 0 /\ closedAt > CcTime /\ ConnCtxDone)
 =============================================================================
